@@ -323,6 +323,10 @@ def c18_cases(rng, n, thorough):
         elif rng.random() < 0.3:
             cargs += ["--check=%s" % rng.choice(["none", "crc32", "sha256"])]
         f = {"name": "in." + fmt, "class": cls, "len": ln, "seed": rng.getrandbits(30), "compress_args": cargs}
+        if rng.random() < 0.12:
+            # compressed size exactly at / next to a multiple of the 8 KiB I/O buffers (end of file seen on a buffer boundary)
+            k = rng.choice([1, 2, 3])
+            f.update({"class": "random", "len": 8192 * k, "target_csize": 8192 * k + rng.choice([0, 0, 0, -1, 1, 4, -4])})
         dmg = rng.random()
         if dmg < 0.2:
             f["corrupt_seed"] = rng.getrandbits(20) + 1
